@@ -28,6 +28,12 @@
 (*   T3 the interval separating two events may be any interval that was configured since the earlier   *)
 (*      event started.                                                                                *)
 (*   T4 a changed advertising type may be used from the next PDU or from the next start.               *)
+(*   T5 the Core specification defines advInterval as an integer multiple of 0.625 ms (Vol 6, Part B,  *)
+(*      4.4.2.2.1: T_advEvent = advInterval + advDelay, advDelay 0 .. 10 ms); bluetoe configures the     *)
+(*      interval in ms.  A configured interval that is no multiple of 0.625 ms may be rounded UP to the  *)
+(*      next multiple; never down: "the advertising interval plus a delay of 0 to 10 ms" leaves nothing *)
+(*      below the configured interval.  Distances are judged in microseconds:                          *)
+(*          interval <= distance of consecutive event starts <= RoundUp(interval) + 10 ms               *)
 EXTENDS Integers, Sequences, FiniteSets
 
 Chans    == {37, 38, 39}
@@ -35,6 +41,11 @@ MaxDelay == 10000          \* advDelay: 0 .. 10 ms, in us
 MaxGap   == 10000          \* PDUs of one advertising event start at most 10 ms apart
 MinIv    == 20000
 MaxIv    == 10240000
+AdvUnit  == 625            \* granularity of advInterval in us (T5)
+
+RoundUp(i) == ((i + AdvUnit - 1) \div AdvUnit) * AdvUnit
+\* C24: d us between two consecutive advertising event starts, i the configured advertising interval in us
+DistanceOK(d, i) == d >= i /\ d <= RoundUp(i) + MaxDelay
 
 VARIABLES
     cfg,      \* configuration of the execution: [auto, iv, own, ownr, wln, types] (+ varmap, variv for generators)
@@ -182,7 +193,7 @@ AdvTx(ch, dt, busy, adv, rsp) ==
     /\ ch \in map                                                                       \* never a disabled channel
     /\ IF IsNewEvent(dt)
        THEN /\ ch = Min(map)
-            /\ (owed.chain /\ ev.open) => \E i \in ivs : ev.span + dt - i \in 0..MaxDelay
+            /\ (owed.chain /\ ev.open) => \E i \in ivs : DistanceOK(ev.span + dt, i)                          \* T3, T5
             /\ ev' = [open |-> TRUE, chans |-> {ch}, dirty |-> FALSE, span |-> 0]
             /\ ivs' = {iv}
        ELSE /\ owed.chain /\ dt <= MaxGap
